@@ -38,3 +38,20 @@ func VerifSnapshot(f Interface) (free []uint64, pending [][3]uint64, readers []u
 	sort.Slice(readers, func(i, j int) bool { return readers[i] < readers[j] })
 	return
 }
+
+// VerifReaders returns the registered reader ids (protected by the DB's metalock).
+func VerifReaders(f Interface) []uint64 {
+	readers := []uint64{}
+	switch t := f.(type) {
+	case *array:
+		for _, r := range t.readonlyTXIDs {
+			readers = append(readers, uint64(r))
+		}
+	case *hashMap:
+		for _, r := range t.readonlyTXIDs {
+			readers = append(readers, uint64(r))
+		}
+	}
+	sort.Slice(readers, func(i, j int) bool { return readers[i] < readers[j] })
+	return readers
+}
